@@ -157,7 +157,7 @@ def run(ck, facts, tier):
     ABSORBING = {"NoMoreSolutions": "the table is complete", "Floundered": "Table.floundered is only ever set to true"}
     b = need_body(ck, facts, R, "<chalk_engine::solve::SLGSolver as chalk_solve::solve::Solver>::solve_multiple")
     if b:
-        ms = enum_matches(b.thir, "chalk_engine::context::AnswerResult")
+        ms = enum_matches(facts.thir(b.key), "chalk_engine::context::AnswerResult")
         if len(ms) != 1:
             ck.violation(R, "solve_multiple:match", b.where(), "expected one match on AnswerResult")
         else:
